@@ -31,6 +31,11 @@ def run(tier, only=None):
             progs.append(Program(f"({text}).partitions[[1, 0]]" if not tag.startswith(("head", "tail")) else f"({text}).partitions[[0]]", [src], family="F11", note=tag + "/filtered", env_globals={"dx": dx}))
             # the same query over a partition-filtered input (selection first)
             progs.append(Program(text.replace("X", "X.partitions[[1, 2]]"), [src], family="F11", note=tag + "/prefiltered", env_globals={"dx": dx}))
+    # user functions with collection-valued arguments (positional: expression operands; keyword: must not end up inside the tasks)
+    L9 = Src("X", 6, {"a": "i", "b": "f", "c": "i"}, 3)
+    for text in ("X.map_partitions(lambda d, y: d + y, X.a.sum())", "X.map_partitions(lambda d, y=None: d + y, y=X.a.sum())", "X.a.map_partitions(lambda s, o: s + o, X.c)",
+                 "X.map_partitions(lambda d, k=1: d + k, k=2)", "X.assign(z=X.a.sum())", "X.a.apply(lambda v, k: v + k, args=(1,), meta=('a', 'i8'))"):
+        progs.append(Program(text, [L9], family="F09", note="user-function-arguments", env_globals={"dx": dx}))
     results, info = pfam.run(progs, prun.check_graphs, only)
     results = krs + results
     info.update(kinfo)
